@@ -1,1 +1,8 @@
 import Ypv.Props.C08
+#print axioms Ypv.C08.parse_write_basic
+#print axioms Ypv.C08.parse_write_basic_inferred
+#print axioms Ypv.C08.parse_write_search_keyword_collector_partial
+#print axioms Ypv.C08.eq_iff_segments
+#print axioms Ypv.C08.eq_written
+#print axioms Ypv.C08.append_pop_partial
+#print axioms Ypv.C08.append_text
